@@ -29,6 +29,15 @@ loadstate_t iobuffer::load_buffer(FILE *fin, bool ispadding)
   WV_EVENT(WV_LOAD_BEGIN, 0, this, ispadding);
   u32_t load = fread(b, 1, sum, fin);
   bool readover = feof(fin);
+  if (!ispadding && !readover && load == sum)
+  {
+    // a chunk that fills the buffer exactly does not raise feof: look one byte ahead
+    int next = fgetc(fin);
+    if (next == EOF)
+      readover = true;
+    else
+      ungetc(next, fin);
+  }
   tail = load & 0xf;
   total = load >> 4;
   WV_EVENT(WV_LOAD_TOTAL, 0, this, total);
